@@ -364,6 +364,42 @@ var _ = reserr.ErrAccessDenied
 //@   ensures[C16] result1 == nil && (result0 == nil || result0 == r)
 //@   assigns nothing
 
+// --- connection events and token reset (C10) ---
+
+// The connection subscribes to its own connection events only.
+//@ func (*wsConn).subscribeConn
+//@   requires predConnOK(c) && c.serv.mq != nil
+//@   assert[C10,C14] c.serv.mq.Subscribe#1: arg0 == "conn." + c.cid
+//@   safety[C15]
+//@ closure (*wsConn).subscribeConn#1
+//@   requires predConnOK(c)
+//@   ensures[C10] callcount("Enqueue") == old(callcount("Enqueue")) + 1
+//@ closure (*wsConn).subscribeConn#2
+//@   requires predConnOK(c)
+//@   assumes predSubsOK(c)
+//@   ensures[C10] callcount("handleConnToken") <= old(callcount("handleConnToken")) + 1
+//@   safety[C15]
+
+// A token event sets exactly the token and token id it carries, on this connection.
+//@ func (*wsConn).handleConnToken
+//@   requires predConnOK(c)
+//@   assumes predSubsOK(c)
+//@   assert[C10,C06] c.setToken#1: arg0 == te.Token && arg1 == te.TID
+//@   safety[C15]
+
+// Token reset: a connection without token id, or whose token id is not listed, asks nothing;
+// a listed one sends one auth request to the given subject with its own id and current token.
+//@ func (*wsConn).TokenReset
+//@   requires predConnOK(c)
+//@   ensures[C10] callcount("Enqueue") == old(callcount("Enqueue")) + 1
+//@ closure (*wsConn).TokenReset#1
+//@   requires predConnOK(c)
+//@   assert[C10] c.serv.cache.CustomAuth#1: c.tid != "" && has(tids, c.tid) && tids[c.tid] && arg0 == c && arg1 == subject && arg2 == "" && arg3 == c.token && arg4 == nil
+//@   ensures[C10] old(c.tid) == "" || !old(has(tids, c.tid) && tids[c.tid]) ==> callcount("CustomAuth") == old(callcount("CustomAuth"))
+//@   safety[C15]
+//@ closure (*wsConn).TokenReset#2
+//@   requires c != nil
+
 // --- collector helpers (C02) ---
 
 // Unsend: the subscription is no longer counted as sent to the client; every sent resource it
